@@ -1335,12 +1335,27 @@ func (db *DB) freepages() []common.Pgid {
 
 	go func() {
 		defer close(ech)
+		// A corrupted page makes the walk panic; hand that to the caller
+		// instead of crashing the process from this goroutine.
+		defer func() {
+			if r := recover(); r != nil {
+				ech <- panicked{r}
+			}
+		}()
 		tx.recursivelyCheckBucket(&tx.root, reachable, nofreed, HexKVStringer(), ech)
 	}()
 	// following for loop will exit once channel is closed in the above goroutine.
-	// we don't need to wait explictly with a waitgroup
+	// we don't need to wait explictly with a waitgroup. Drain the channel before
+	// panicking: the goroutine must not keep walking the mmap after the caller
+	// has given up (and possibly unmapped the file).
+	var firstErr error
 	for e := range ech {
-		panic(fmt.Sprintf("freepages: failed to get all reachable pages (%v)", e))
+		if firstErr == nil {
+			firstErr = e
+		}
+	}
+	if firstErr != nil {
+		panic(fmt.Sprintf("freepages: failed to get all reachable pages (%v)", firstErr))
 	}
 
 	// TODO: If check bucket reported any corruptions (ech) we shouldn't proceed to freeing the pages.
